@@ -1594,6 +1594,17 @@ func (c *Ctx) ruleUnregisteredCloses(rule string) {
 		if ch == nil {
 			continue
 		}
+		// the channel is the one a caller of the API handed in (it travels down from a parameter of an exported method),
+		// not one that was taken out of the table of registered channels
+		fromCaller := true
+		for _, src := range core.ParamSources(ch) {
+			if prm, isParam := src.(*ssa.Parameter); !isParam || prm.Parent() == nil || !ast_IsExported(prm.Parent().Name()) {
+				fromCaller = false
+			}
+		}
+		if !fromCaller {
+			continue
+		}
 		// the registering function itself has the refusal clause
 		registers := false
 		for _, b := range fn.Blocks {
